@@ -179,9 +179,6 @@ def execute(sc):
             if not np.allclose(std, want_std, **std_tol(sc, pool)):
                 res.violate("stats.std", f"accumulated std {std.tolist()} != pooled {'Bessel-corrected' if sc['bessel'] else 'population'} std {want_std.tolist()}", dtype=sc["dtype"], bessel=sc["bessel"])
                 return res
-            if mvn.count is not None or mvn.sum is not None:
-                res.violate("store.stats-kept", "store() with delete_stats=True kept the accumulators")
-                return res
             # normalising the pooled data gives zero mean, unit variance per coefficient
             if not sc["bessel"] and (want_std > 1e-3).all():
                 ys = [mvn(t) for t in tensors]
@@ -222,6 +219,19 @@ def execute(sc):
                         res.violate("normalise.partial-stats", f"with only {which} given, the output is not (x - mean) / std with the input's own {'std' if which == 'mean' else 'mean'}", which=which)
                         return res
                 res.bump("probe.partial_statistics")
+            # store() with delete_stats=True (the default) starts a new history: what is accumulated
+            # afterwards is pooled on its own (judged through the public methods only)
+            if pt.shape[0] >= 2:  # (the code wants two frames even without Bessel's correction; not judged)
+                try:
+                    mvn.accumulate(t)
+                    mvn.store(bessel=False)
+                except Exception as e:  # noqa
+                    res.violate("store.raised", f"accumulate + store after a deleting store raised {type(e).__name__}: {e}")
+                    return res
+                if not np.allclose(mvn.mean.double().numpy(), pt.mean(0), **tol_for(sc, pt)) or not np.allclose(mvn.std.double().numpy(), pt.std(0), **std_tol(sc, pt)):
+                    res.violate("store.stats-kept", "store() with delete_stats=True kept the accumulated statistics: a second history is pooled with the first")
+                    return res
+                res.bump("probe.second_history_after_deleting_store")
             res.states.add(str((sc["D"], dim % sc["D"], len(chunks), sc["bessel"], sc["dtype"])))
             res.nontrivial = len(chunks) >= 2
             return res
@@ -283,7 +293,7 @@ def execute(sc):
             try:
                 rc = command_line.compute_mvn_stats_for_torch_feat_data_dir(args)
             except RuntimeError as e:
-                if min(counts.values()) < 2 and "Too few" in str(e):
+                if min(counts.values()) < 2:  # too few frames for an estimate, whatever the wording
                     res.bump("probe.too_few_frames_raises")
                     return res
                 res.violate("command.raised", f"compute-mvn-stats raised {type(e).__name__}: {e}")
